@@ -165,6 +165,7 @@ class RecLearner:
         self.j = 0          # score calls answered
         self.refused = 0
         self.probes = 0
+        self.bare_mapping = False
 
     @property
     def params(self): return {'family': 'rec'}
@@ -186,7 +187,9 @@ class RecLearner:
     def _predict1(self, context, actions):
         k = self.k; self.k += 1
         self.trace.append(('predict', snap(context), snap(actions)))
-        return _render(self.spec, *choose(self.spec, k, actions))
+        a, p, kw = choose(self.spec, k, actions)
+        if self.spec['fmt'] in ('a', 'ak') and isinstance(a, dict): self.bare_mapping = True     # a bare dict action has been answered
+        return _render(self.spec, a, p, kw)
 
     def predict(self, context, actions):
         if self._refuse((context, actions)):
@@ -320,16 +323,16 @@ def run_and_compare(env, learn, ev, record, spec):
     if missing_hard:
         if exc is None:
             res.status = 'not-rejected'
-            res.bad(f'validate|environment lacking required fields is evaluated|{mode} missing={sorted(missing_hard)}',
-                    f'environment has {sorted(has)}, mode needs {sorted(missing_hard)}, got {len(rows)} rows and {len(trace)} learner calls')
+            res.bad(f'validate|environment lacking required fields is evaluated|missing={sorted(missing_hard)}',
+                    f'{mode}: environment has {sorted(has)}, mode needs {sorted(missing_hard)}, got {len(rows)} rows and {len(trace)} learner calls')
         elif rows or trace:
             res.status = 'late-rejection'
-            res.bad(f'validate|rejected only after learner calls or rows|{mode} missing={sorted(missing_hard)}',
-                    f'{len(trace)} learner calls and {len(rows)} rows before {exc!r}')
+            res.bad(f'validate|rejected only after learner calls or rows|missing={sorted(missing_hard)}',
+                    f'{mode}: {len(trace)} learner calls and {len(rows)} rows before {exc!r}')
         elif not isinstance(exc, CobaException):
             res.status = 'crash-instead-of-rejection'
-            res.bad(f'validate|environment lacking required fields crashes instead of being rejected with CobaException|{mode} missing={sorted(missing_hard)}',
-                    f'environment has {sorted(has)}: {exc!r}')
+            res.bad(f'validate|environment lacking required fields crashes instead of being rejected with CobaException|missing={sorted(missing_hard)}',
+                    f'{mode}: environment has {sorted(has)}: {exc!r}')
         else:
             res.status = 'rejected'
         res.signature = f'{res.status}:{type(exc).__name__}'
@@ -347,7 +350,7 @@ def run_and_compare(env, learn, ev, record, spec):
         res.status = 'raised'
         res.signature = 'raised:' + exc_sig(exc)
         what = f'{mode} record={record} on an environment with {sorted(has)}: {exc!r} after {len(trace)} learner calls, {len(rows)} rows'
-        if exc_file(exc) == 'safety.py' and spec['fmt'] in ('a', 'ak') and env['acts'] and 'map' in env['acts']:
+        if exc_file(exc) == 'safety.py' and learner.bare_mapping:
             # Pred = Action and Action may be a Mapping, but SafeLearner reads every bare dict as a {'pmf'|'action'|'action_prob': ..} hint
             res.bad(f'SafeLearner|bare Mapping action is taken for a format-hint dict|{type(exc).__name__}@{exc_sig(exc).split("@")[1].split(" ")[0]} {B}', what)
         else:
@@ -366,7 +369,7 @@ def run_and_compare(env, learn, ev, record, spec):
     if pattern is None:
         res.status = 'bad-pattern'
         res.signature = 'bad-pattern'
-        res.bad(f'trace|calls are not one predict/score/learn group per interaction in order|{mode} {B}', f'call kinds {kinds} for units {units}')
+        res.bad(f'trace|calls are not one predict/score/learn group per interaction in order|{B}', f'{mode}: call kinds {kinds} for units {units}')
         return res
     pred, score, lrn = pattern
     rec = set(record)
@@ -379,11 +382,11 @@ def run_and_compare(env, learn, ev, record, spec):
     if lrn != bool(learn):
         res.bad(f'trace|learn {"not called" if learn else "called"}|learn={learn} {B}', f'call kinds {kinds}')
     if need_pred and not pred:
-        res.bad(f'trace|predict not called although its result is needed|{mode} {B}', f'call kinds {kinds}, record {record}')
+        res.bad(f'trace|predict not called although its result is needed|{B}', f'{mode}: call kinds {kinds}, record {record}')
     if score and not (ev == 'ips' and has_score):
-        res.bad(f'trace|score called outside eval=ips|{mode} {B}', f'call kinds {kinds}')
+        res.bad(f'trace|score called outside eval=ips|{B}', f'{mode}: call kinds {kinds}')
     if ev == 'ips' and 'reward' in rec and not (pred or score):
-        res.bad(f'trace|neither predict nor score called for an ips evaluation|{mode} {B}', f'call kinds {kinds}')
+        res.bad(f'trace|neither predict nor score called for an ips evaluation|{B}', f'{mode}: call kinds {kinds}')
     if res.violations:
         res.status = 'bad-pattern'; res.signature = 'bad-pattern'
         return res
